@@ -1,4 +1,4 @@
-CONSTANTS Scope = "small" OneByOne = FALSE Mutant = "none"
+CONSTANTS Scope = "tiny" OneByOne = TRUE Mutant = "none"
 SPECIFICATION Spec
 INVARIANT TypeOK
 INVARIANT Inv_Fail
